@@ -173,8 +173,14 @@ def _nary_mul(args: list[fpc.Expr]):
             e = fpc.Mul(e, arg)
         return e
 
+def _exact_size(arr: fpc.Expr, dim: fpc.Expr) -> fpc.Expr:
+    """`(size arr dim)` as the integer it is: annotated, so that a reader does
+    not round the length under whatever context the expression stands in (257
+    elements are 256 under an 8-digit format)."""
+    return fpc.Ctx({ 'precision': 'integer' }, fpc.Size(arr, dim))
+
 def _size0_expr(x: str):
-    return fpc.Size(fpc.Var(x), fpc.Integer(0))
+    return _exact_size(fpc.Var(x), fpc.Integer(0))
 
 
 class _FPCoreCompileInstance(Visitor):
@@ -361,7 +367,7 @@ class _FPCoreCompileInstance(Visitor):
     def _visit_len(self, arg: Expr, ctx: None) -> fpc.Expr:
         # length expression
         arr = self._visit_expr(arg, ctx)
-        return fpc.Size(arr, fpc.Integer(0))
+        return _exact_size(arr, fpc.Integer(0))
 
     def _visit_range1(self, stop: Expr, ctx: None) -> fpc.Expr:
         # range(stop) => (tensor ([i <stop>]) i)
@@ -412,7 +418,7 @@ class _FPCoreCompileInstance(Visitor):
     def _visit_size(self, arr: Expr, dim: Expr, ctx) -> fpc.Expr:
         tup = self._visit_expr(arr, ctx)
         idx = self._visit_expr(dim, ctx)
-        return fpc.Size(tup, idx)
+        return _exact_size(tup, idx)
 
     def _visit_dim(self, arr: Expr, ctx) -> fpc.Expr:
         tup = self._visit_expr(arr, ctx)
@@ -508,7 +514,7 @@ class _FPCoreCompileInstance(Visitor):
             iter_id = str(self.gensym.fresh('i'))
             return fpc.Let(
                 list(zip(tuple_ids, tuples)),
-                fpc.Tensor([(iter_id, fpc.Size(fpc.Var(tuple_ids[0]), fpc.Integer(0)))],
+                fpc.Tensor([(iter_id, _exact_size(fpc.Var(tuple_ids[0]), fpc.Integer(0)))],
                     fpc.Array(*[fpc.Ref(fpc.Var(tid), fpc.Var(iter_id)) for tid in tuple_ids])
                 )
             )
@@ -914,7 +920,7 @@ class _FPCoreCompileInstance(Visitor):
                 assert e.start is not None
                 start = self._visit_expr(e.start, ctx)
                 if e.stop is None:
-                    stop = fpc.Size(fpc.Var(tuple_id), fpc.Integer(0))
+                    stop = _exact_size(fpc.Var(tuple_id), fpc.Integer(0))
                 else:
                     stop = self._visit_expr(e.stop, ctx)
 
